@@ -443,6 +443,48 @@ fn crafted_token_amount(seed: u64) -> (Vec<u8>, Option<bool>) {
     (b, Some(m_ok && (-255..=0).contains(&e)))
 }
 
+/// Lists of token amounts in indefinite-length clothes. The one firm expectation: an
+/// indefinite-length list whose own break is missing is ill-formed, also when its last element is
+/// itself an indefinite-length array that ends in a break.
+fn crafted_amount_list(seed: u64) -> (Vec<u8>, Option<bool>) {
+    let mut rng = Rng::new(seed);
+    let n = rng.urange(1, 3);
+    let amount = |rng: &mut Rng, indefinite: bool, out: &mut Vec<u8>| {
+        out.push(0xc4);
+        out.push(if indefinite { 0x9f } else { 0x82 });
+        out.push(0x20 | rng.below(19) as u8); // exponent -1..-19
+        out.push(rng.below(24) as u8);
+        if indefinite {
+            out.push(0xff);
+        }
+    };
+    let mut b = vec![0x9f];
+    match rng.below(3) {
+        0 => {
+            // well-formed: definite elements, outer break present (acceptance is the decoder's choice)
+            for _ in 0..n {
+                amount(&mut rng, false, &mut b);
+            }
+            b.push(0xff);
+            (b, None)
+        }
+        1 => {
+            // outer break missing, last element indefinite: its break must not double as the list's
+            for i in 0..n {
+                amount(&mut rng, i + 1 == n, &mut b);
+            }
+            (b, Some(false))
+        }
+        _ => {
+            // outer break missing altogether
+            for _ in 0..n {
+                amount(&mut rng, false, &mut b);
+            }
+            (b, Some(false))
+        }
+    }
+}
+
 fn with_crafted(mut s: Subject, c: Box<dyn Fn(u64) -> (Vec<u8>, Option<bool>) + Send + Sync>) -> Subject {
     s.crafted = Some(c);
     s
@@ -510,6 +552,13 @@ pub fn cbor_subjects() -> Vec<Subject> {
     v.push(with_crafted(cbor_subject::<concordium_base::hashes::Hash>("Hash", false, g_hash), crafted_fixed(32, None)));
     // protocol-level token types
     v.push(with_crafted(cbor_subject::<plt::TokenAmount>("TokenAmount", false, g_token_amount), Box::new(crafted_token_amount)));
+    v.push(with_crafted(
+        cbor_subject::<Vec<plt::TokenAmount>>("Vec<TokenAmount>", false, |r| {
+            let n = r.urange(0, 4);
+            (0..n).map(|_| g_token_amount(r)).collect()
+        }),
+        Box::new(crafted_amount_list),
+    ));
     v.push(cbor_subject::<plt::CoinInfo>("CoinInfo", false, |_| plt::CoinInfo::CCD));
     v.push(cbor_subject::<plt::CborHolderAccount>("CborHolderAccount", false, g_holder));
     v.push(cbor_subject::<plt::CborHolderAccount>("CborHolderAccount(fail-unknown)", true, g_holder));
